@@ -4,6 +4,7 @@ import (
 	"bytes"
 	"encoding/hex"
 	"fmt"
+	"hash/fnv"
 	"math/rand"
 	"reflect"
 	"sort"
@@ -193,6 +194,35 @@ func c13Run(args []string) Result {
 	if err != nil {
 		return Result{Out: "err"}
 	}
+	builtWithRejects := false
+	if c13Seed(args)%2 == 1 && len(words) > 0 {
+		// "every Dawg": the same word set reached through a history with refused Adds (a repeated word, an earlier word)
+		// interleaved. C12 says such Adds leave the Dawg alone; if one is accepted here the plain Dawg above is kept.
+		var db dawg.Builder
+		okHist := true
+		for i, w := range words {
+			if db.Add(append([]byte{}, w...)) != nil {
+				okHist = false
+				break
+			}
+			if db.Add(append([]byte{}, w...)) == nil {
+				okHist = false
+				break
+			}
+			if i > 0 && i%2 == 1 {
+				if db.Add(append([]byte{}, words[i/2]...)) == nil {
+					okHist = false
+					break
+				}
+			}
+		}
+		if okHist {
+			if d2, err2 := db.Finish(); err2 == nil && d2 != nil {
+				d = d2
+				builtWithRejects = true
+			}
+		}
+	}
 	oracle := ""
 	fail := func(f string, a ...interface{}) {
 		if oracle == "" {
@@ -200,6 +230,9 @@ func c13Run(args []string) Result {
 		}
 	}
 	tags := map[string]bool{}
+	if builtWithRejects {
+		tags["built-with-refused-adds"] = true
+	}
 	snapshot := func() string {
 		var b strings.Builder
 		fmt.Fprintf(&b, "n=%d", d.NumberOfWords())
@@ -245,8 +278,15 @@ func c13Run(args []string) Result {
 		exp := c13ShowRes(expW, expI)
 		rep := guard(func() string {
 			ss := make([]dawg.Searcher, len(q))
+			bufs := map[string][]byte{} // searchers of one query given the same string share one caller-side buffer
 			for i, s := range q {
-				str := append([]byte{}, s.str...)
+				str, shared := bufs[string(s.str)]
+				if !shared {
+					str = append([]byte{}, s.str...)
+					bufs[string(s.str)] = str
+				} else {
+					tags["shared-query-buffer"] = true
+				}
 				if s.kind == 'p' {
 					ss[i] = dawg.NewPatternSearcher(str, s.blank)
 				} else {
@@ -570,4 +610,14 @@ func c13Gen(r *rand.Rand, tier string, emit func(string)) {
 
 func init() {
 	register(&Proto{Name: "dsearch", Props: []string{"C13"}, Run: c13Run, Gen: c13Gen})
+}
+
+// c13Seed is a hash of the request line: per-request choices of the harness that the Lean side does not see.
+func c13Seed(args []string) uint64 {
+	h := fnv.New64a()
+	for _, a := range args {
+		h.Write([]byte(a))
+		h.Write([]byte{' '})
+	}
+	return h.Sum64() >> 3
 }
